@@ -18,19 +18,19 @@ type Scenario func() (main func(), monitor func(*Exec), check func(Result) error
 // non-default pick; otherwise only preemptions of a still-enabled running thread);
 // environment choices have their own budget MaxEnv (-1: unbounded).
 type Explorer struct {
-	Delay      bool
-	UseCache   bool
-	MaxDev     int // deviation / preemption budget
-	MaxEnv     int
-	MaxSteps   int
-	Scenario   Scenario
-	ShardI     int // this worker explores sub-trees with index%ShardN == ShardI
-	ShardN     int
-	ShardDepth int // depth (in deviations from the root run) at which sub-trees are dealt, default 1
-	Deadline   time.Time
-	MaxCache   int
+	Delay       bool
+	UseCache    bool
+	MaxDev      int // deviation / preemption budget
+	MaxEnv      int
+	MaxSteps    int
+	Scenario    Scenario
+	ShardI      int // this worker explores sub-trees with index%ShardN == ShardI
+	ShardN      int
+	ShardDepth  int // depth (in deviations from the root run) at which sub-trees are dealt, default 1
+	Deadline    time.Time
+	MaxCache    int
 	StopAtFirst bool
-	Outcome    func() string // optional classification of the last execution (harness state)
+	Outcome     func() string // optional classification of the last execution (harness state)
 
 	Executions  int
 	Transitions int
